@@ -599,7 +599,126 @@ def cw7(P, C):
         raise core.AnalysisBroken("CW-7: no wrapper with a failure value dereferences the handle")
 
 
+def cw8(P, C):
+    """CW-8: a result handed back through a pointer-to-pointer parameter is defined on every exit."""
+    C.rule("CW-8", "a wrapper that hands its result back through a pointer-to-pointer parameter (`struct ndsparse** result`) stores to `*result` on "
+           "every path to every return, the rejections included (must-dataflow over the CFG): the header promises NULL on failure, and a caller "
+           "that re-uses its variable across calls releases a stale pointer a second time if a failing call leaves it untouched", floor=1)
+    from . import ts
+    n = 0
+    for f in wrappers(P):
+        outs = [p for p in f.params if p.get("type", "").replace(" ", "").endswith("**") and "const" not in p.get("type", "").split("*")[0]]
+        if not outs or not f.cfg:
+            continue
+        for p in outs:
+            pid = p["id"]
+
+            def is_store(i, _f=f, _pid=pid):
+                ap = ts.assign_parts(_f, i)
+                if not ap:
+                    return False
+                l = _f.strip(ap[0])
+                if _f.k(l) == "UnaryOperator" and _f.nodes[l].get("op") == "*":
+                    b = _f.strip(_f.nodes[l]["ch"][0])
+                    return _f.k(b) == "DeclRefExpr" and _f.nodes[b]["decl"].get("id") == _pid
+                if _f.k(l) == "ArraySubscriptExpr":
+                    b = _f.strip(_f.nodes[l]["ch"][0])
+                    return _f.k(b) == "DeclRefExpr" and _f.nodes[b]["decl"].get("id") == _pid and _f.nodes[_f.strip(_f.nodes[l]["ch"][1])].get("cv") == 0
+                return False
+
+            def transfer(st, e, _b=None, _j=None):
+                if e.get("kind") == "stmt" and e.get("n", -1) >= 0 and is_store(e["n"]):
+                    return True
+                return st
+            IN, OUT = core.dataflow(f, False, transfer, lambda a, b: a and b)
+            # handler blocks are not reachable from the entry (no EH edges): they start where the try block started
+            pos = f.node_positions()
+            bad = []
+            for r in f.walk():
+                if f.k(r) != "ReturnStmt" or r not in pos:
+                    continue
+                b, j = pos[r]
+                if b in IN:
+                    st = core.state_before(f, IN, transfer, b, j)
+                else:
+                    # a return inside a catch handler: what held when the try block was entered holds here
+                    t = next((t_ for (t_, in_try, _h) in f.enclosing_try(r) if not in_try), None)
+                    st = None
+                    if t is not None:
+                        tb = next((pos[x][0] for x in f.walk(f.nodes[t]["tryBlock"]) if x in pos and pos[x][0] in IN), None) if "tryBlock" in f.nodes[t] else None
+                        if tb is not None:
+                            st = IN[tb]
+                    if st is None:
+                        st = False
+                if not st:
+                    bad.append(r)
+            n += 1
+            C.ob("CW-8", f.name, "out-parameter-defined:%s" % p["name"], not bad, f.loc(bad[0]) if bad else f.where(),
+                 "*%s is stored on every path to every return" % p["name"] if not bad else
+                 "%s leaves at %s without having stored to *%s: a failing call hands the caller's old pointer back" % (f.name, f.loc(bad[0]), p["name"]))
+    if n == 0:
+        raise core.AnalysisBroken("CW-8: no wrapper with a pointer-to-pointer result parameter")
+
+
+def cw9(P, C):
+    """CW-9: an evaluation wrapper evaluates."""
+    C.rule("CW-9", "the wrappers that hand a value of the table or of an evaluation straight back (read-only handle, no status channel of their "
+           "own: lookup, the evaluation entry points, the accessors) reach the call of the member they forward to on every path on which "
+           "their pointer arguments are valid — branch conditions that only test those pointers are evaluated, every other branch is followed "
+           "both ways (CFG search from the entry to the exit that avoids the forwarding call; catch handlers are not reachable without it). "
+           "A wrapper that decides by itself when not to ask the table returns something else than the C++ operation for some tables", floor=15)
+    n = 0
+    W = {f.name: f for f in wrappers(P)}
+    for name, (member, _args, _fwd) in sorted(FORWARD.items()):
+        f = W.get(name)
+        if f is None or not f.cfg:
+            continue
+        hp = [p for p in f.params if "splinetable" in p.get("type", "") and "*" in p.get("type", "")]
+        if not hp or "const" not in hp[0].get("type", "") or any(f.k(x) == "SwitchStmt" for x in f.walk()):
+            continue
+        if f.d.get("rtype", "") == "int" and name not in FORWARDS_INT:
+            continue
+        calls = [i for i, cal in f.calls() if cal and cal["name"] == member and "splinetable" in cal.get("cls", "")]
+        pos = f.node_positions()
+        cblocks = {pos[c][0] for c in calls if c in pos}
+        if not cblocks:
+            continue                   # CW-5 reports a wrapper that does not call its member
+        env = {}
+        for p in f.params:
+            if "*" in p.get("type", ""):
+                env[p["name"]] = core.SOMEPTR
+                env[p["name"] + "->data"] = core.SOMEPTR
+        seen, st, leak = set(), [f.cfg["entry"]], None
+        while st:
+            b = st.pop()
+            if b in seen or b in cblocks:
+                continue
+            seen.add(b)
+            if b == f.cfg["exit"]:
+                leak = b
+                break
+            blk = f.blocks[b]
+            succ = [s for s in blk["succ"] if s >= 0]
+            tc = blk.get("termCond", -1)
+            if len(blk["succ"]) == 2 and tc is not None and tc >= 0:
+                try:
+                    v = core.truth(core.expr_value(f, tc, env))
+                    succ = [blk["succ"][0 if v else 1]] if blk["succ"][0 if v else 1] >= 0 else []
+                except core.Unknown:
+                    pass
+            st.extend(succ)
+        n += 1
+        C.ob("CW-9", name, "reaches:" + member, leak is None, f.where(),
+             "with valid pointer arguments every path through %s calls splinetable::%s" % (name, member) if leak is None else
+             "%s can return without calling splinetable::%s although its pointer arguments are valid: for the tables on that path the C interface "
+             "does not return what the C++ operation returns" % (name, member))
+    if n == 0:
+        raise core.AnalysisBroken("CW-9: no forwarding wrapper found")
+
+
 def run(P, C):
+    cw8(P, C)
+    cw9(P, C)
     cw7(P, C)
     cw6(P, C)
     cw0(P, C)
